@@ -251,7 +251,7 @@ def data_cases(draw, tier="quick"):
         counts.add(len(a & b))
     ratios = sorted(x for x in ratios if x > 0)[:8]
     counts = sorted(c for c in counts if c > 0)[:5]
-    merge = draw(gen.merge_policies(extra_percents=ratios, extra_numbers=[c for c in counts] + [c + 1 for c in counts]))
+    merge = draw(gen.merge_policies(extra_percents=ratios, extra_numbers=[c for c in counts] + [c + 1 for c in counts], zero=True))
     opts = {"merge": merge, "sreg": draw(gen.sregs()),
             "dkr": draw(st.sampled_from([[], [], [r"n_\d+"]])), "dkf": []}
     return {"roots": roots, "opts": opts}
